@@ -380,6 +380,142 @@ fn blocked_family() -> Value {
                 }
             }
         }
+        // blocking calls queued in the transaction itself: inside EXEC they never wait (nothing to pop answers nil at
+        // once), EXEC answers completely, the client is not left blocked or registered, and a later push stays in the list
+        // (a seeded change passed the real connection id into EXEC's commands: the queued BLPOP blocked its own client
+        // in the middle of EXEC)
+        let calls: Vec<Vec<&str>> = vec![vec!["BLPOP", "q", "0"], vec!["BRPOP", "q", "0"], vec!["BLPOP", "q", "5"], vec!["BLPOP", "o", "q", "0"], vec!["BRPOP", "q", "0.5"]];
+        let states: Vec<(&str, Vec<&str>)> = vec![("missing", vec![]), ("one element", vec!["RPUSH", "q", "e1"]), ("two elements", vec!["RPUSH", "q", "e1", "e2"]), ("a string", vec!["SET", "q", "str"])];
+        for (ci, call) in calls.iter().enumerate() {
+            for (sname, seed) in states.iter() {
+                for shape in 0..3usize {
+                    for one_write in [true, false] {
+                        n += 1;
+                        let mut run = || -> Result<Option<String>, String> {
+                            h.ensure()?;
+                            h.aux_call(&["FLUSHALL"])?;
+                            if !seed.is_empty() {
+                                h.aux_call(seed)?;
+                            }
+                            let mut body: Vec<Vec<&str>> = Vec::new();
+                            if shape == 2 {
+                                body.push(vec!["RPUSH", "o", "z"]);
+                            }
+                            let slot = body.len();
+                            body.push(call.clone());
+                            if shape >= 1 {
+                                body.push(vec!["SET", "a", "1"]);
+                                body.push(vec!["LLEN", "q"]);
+                            }
+                            let mut reqs: Vec<Vec<u8>> = vec![resp::cmd(&["MULTI"])];
+                            reqs.extend(body.iter().map(|c| resp::cmd(c)));
+                            reqs.push(resp::cmd(&["EXEC"]));
+                            let mut t = h.srv.as_ref().unwrap().connect().map_err(|e| format!("{:?}", e))?;
+                            if one_write {
+                                t.send(&reqs.concat());
+                            }
+                            let mut frames: Vec<R> = Vec::new();
+                            let mut garbage = None;
+                            for i in 0..reqs.len() + 6 {
+                                if !one_write && i < reqs.len() {
+                                    t.send(&reqs[i]);
+                                }
+                                let _ = h.srv.as_ref().unwrap().step();
+                                t.poll();
+                                loop {
+                                    match t.take_frame() {
+                                        Ok(Some(f)) => frames.push(f),
+                                        Ok(None) => break,
+                                        Err(e) => {
+                                            garbage = Some(e);
+                                            break;
+                                        }
+                                    }
+                                }
+                            }
+                            let id = t.id;
+                            let row_blocked = (h.srv.as_ref().unwrap().h.connections)().iter().any(|r| r.id == id && r.state == "blocked");
+                            let (waiters, _, _) = h.srv.as_ref().unwrap().h.blocking.verif_snapshot();
+                            let registered = waiters.iter().any(|w| w.conn_id == id);
+                            let mut verdict: Option<String> = None;
+                            if garbage.is_some() || !t.buf.is_empty() {
+                                verdict = Some("EXEC-reply-incomplete-or-malformed".into());
+                            } else if frames.len() != reqs.len() {
+                                verdict = Some(format!("{}-replies-for-{}-requests", frames.len(), reqs.len()));
+                            } else if row_blocked || registered {
+                                verdict = Some("client-left-blocked-by-its-own-EXEC".into());
+                            } else {
+                                // expected slot of the blocking call
+                                let o_has = shape == 2;
+                                let keys: Vec<&str> = call[1..call.len() - 1].to_vec();
+                                let right = call[0] == "BRPOP";
+                                let mut want: Option<R> = Some(R::NilArr);
+                                for k in keys.iter() {
+                                    if *k == "o" {
+                                        if o_has {
+                                            want = Some(R::Arr(vec![R::Bulk(b"o".to_vec()), R::Bulk(b"z".to_vec())]));
+                                            break;
+                                        }
+                                    } else if *sname == "a string" {
+                                        want = None; // an error
+                                        break;
+                                    } else if *sname != "missing" {
+                                        let e = if right && *sname == "two elements" { "e2" } else { "e1" };
+                                        want = Some(R::Arr(vec![R::Bulk(b"q".to_vec()), R::Bulk(e.as_bytes().to_vec())]));
+                                        break;
+                                    }
+                                }
+                                match frames.last() {
+                                    Some(R::Arr(v)) if v.len() == body.len() => {
+                                        let got = &v[slot];
+                                        let fine = match &want {
+                                            None => got.is_err(),
+                                            Some(w) => crate::model::same(w, got),
+                                        };
+                                        if !fine {
+                                            verdict = Some(format!("blocking-call-in-EXEC-answered-{}", resp::class(got)));
+                                        }
+                                    }
+                                    Some(other) => verdict = Some(format!("EXEC-answered-{}", resp::class(other))),
+                                    None => {}
+                                }
+                            }
+                            if verdict.is_none() {
+                                let before = h.aux_call(&["LLEN", "q"]).ok();
+                                if *sname != "a string" {
+                                    h.aux_call(&["RPUSH", "q", "later"])?;
+                                    let _ = h.srv.as_ref().unwrap().steps(3);
+                                    let after = h.aux_call(&["LLEN", "q"])?;
+                                    if let (Some(R::Int(b0)), R::Int(a0)) = (before, after) {
+                                        if a0 != b0 + 1 {
+                                            verdict = Some("a-later-push-was-swallowed".into());
+                                        }
+                                    }
+                                }
+                                if verdict.is_none() {
+                                    let pong = h.srv.as_ref().unwrap().call(&mut t, &["PING"]).map(|r| r == R::Simple(b"PONG".to_vec())).unwrap_or(false);
+                                    if !pong {
+                                        verdict = Some("connection-out-of-step-after-EXEC".into());
+                                    }
+                                }
+                            }
+                            t.discard();
+                            let _ = h.srv.as_ref().unwrap().steps(3);
+                            Ok(verdict)
+                        };
+                        match run() {
+                            Ok(Some(p)) => recs.push(json!({"problem": p, "body": format!("{} queued in MULTI ({}; q is {})", call.join(" "), ["alone", "followed by SET a 1, LLEN q", "after RPUSH o z, followed by SET a 1, LLEN q"][shape], sname), "one_write": one_write, "class": format!("queued-blocking-call{} {}", ci, sname)})),
+                            Ok(None) => {}
+                            Err(e) => {
+                                errors.push(format!("queued blocking call {} {}: {}", call.join(" "), sname, e));
+                                *hh = Some(Harness::new(SrvOpts::default()));
+                                return json!({"recs": recs, "errors": errors, "n": n});
+                            }
+                        }
+                    }
+                }
+            }
+        }
         json!({"recs": recs, "errors": errors, "n": n})
     })
 }
